@@ -87,10 +87,14 @@ func init() {
 			Rule{Name: "E15.self", Run: runSelfCompare}, Rule{Name: "E15.collect", Run: runCollectAll}, Rule{Name: "E15.parallel", Run: runParallelIndex},
 			Rule{Name: "E15.stale", Run: runStaleElementState}, Rule{Name: "E15.siblings", Run: runSiblingChildCons}, Rule{Name: "E15.copy0", Run: runZeroLenCopy},
 			Rule{Name: "E15.case", Run: runAsymmetricNormalisation}, Rule{Name: "E14.params", Run: runParamPermutation}, Rule{Name: "E16.lost", Run: runLostUpdate}, Rule{Name: "E16.dead", Run: runDeadStore},
-			Rule{Name: "E15.flag", Run: runSearchFlagReset}, Rule{Name: "E15.ctx", Run: runCtxLeak})
+			Rule{Name: "E15.flag", Run: runSearchFlagReset}, Rule{Name: "E15.ctx", Run: runCtxLeak}, Rule{Name: "E15.record", Run: runRecordThenReject})
 	}
 	propRules["C18"] = append(propRules["C18"], Rule{Name: "E2.poskeys", Run: runPosKeys}, Rule{Name: "E15.collect", Run: runCollectAll}, Rule{Name: "E6.trim", Run: runByteTrim}, Rule{Name: "E6.column", Run: runColumnOrder}, Rule{Name: "E8.completion", Run: runCompletionContainment})
 	propRules["C19"] = append(propRules["C19"], Rule{Name: "E11.consumers", Run: runLookupConsumers})
+	propRules["C19"] = append(propRules["C19"], Rule{Name: "E13.evalctx", Run: runEvalContextAgreement})
+	for _, pid := range []string{"C01", "C14", "C09", "C10"} {
+		propRules[pid] = append(propRules[pid], Rule{Name: "E17.unchecked", Run: runUncheckedResult})
+	}
 	propRules["C14"] = append(propRules["C14"], Rule{Name: "E11.consumers", Run: runLookupConsumers})
 	for _, pid := range []string{"C10", "C11"} {
 		propRules[pid] = append(propRules[pid], Rule{Name: "E5.module", Run: runE5Module})
